@@ -723,8 +723,15 @@ Verdict judge(const Plan &plan, const sim::Shm *shm, const ChildExit &ex, const 
         if (wtid < 0 && plan_moves && !calls.empty())
             fail(v, "not-async", "moveToOwnThread() did not start a worker thread");
         // (a plan without a move - only a minimiser can make one - has no logger thread to judge against)
+        long first_stop = -1;
+        for (auto &w : stops)
+            if (first_stop < 0 || w.begin < first_stop)
+                first_stop = w.begin;
         for (uint32_t i = 0; i < N && v.ok && wtid >= 0; i++) {
             const sim::Event &e = shm->events[i];
+            // (once a stop has begun, the stopping thread may deliver what is left - that is C04's subject)
+            if (first_stop >= 0 && (long)i > first_stop)
+                break;
             if (is_pipeline_event(e.kind) && e.tid != wtid)
                 fail(v, "wrong-thread",
                      "handler work for message id " + std::to_string(pipeline_event_cid(e)) + " ran on thread T"
